@@ -7,9 +7,12 @@ require (
 	github.com/0chain/common v1.13.1-0.20240726100134-cbf5bf9beaac
 	github.com/alicebob/miniredis/v2 v2.30.5
 	github.com/herumi/bls-go-binary v1.33.0
+	github.com/lib/pq v1.10.9
+	github.com/tinylib/msgp v1.1.6
 	go.uber.org/zap v1.24.0
 	golang.org/x/tools v0.16.0
 	gorm.io/driver/sqlite v1.5.3
+	gorm.io/gorm v1.25.4
 )
 
 require (
@@ -77,7 +80,6 @@ require (
 	github.com/klauspost/cpuid/v2 v2.2.4 // indirect
 	github.com/koding/cache v0.0.0-20161222233018-4a3175c6b2fe // indirect
 	github.com/leodido/go-urn v1.2.4 // indirect
-	github.com/lib/pq v1.10.9 // indirect
 	github.com/linxGnu/grocksdb v1.8.1 // indirect
 	github.com/lithammer/shortuuid/v3 v3.0.7 // indirect
 	github.com/magiconair/properties v1.8.7 // indirect
@@ -102,7 +104,6 @@ require (
 	github.com/spf13/viper v1.16.0 // indirect
 	github.com/stretchr/testify v1.9.0 // indirect
 	github.com/subosito/gotenv v1.4.2 // indirect
-	github.com/tinylib/msgp v1.1.6 // indirect
 	github.com/valyala/gozstd v1.20.1 // indirect
 	github.com/vmihailenco/msgpack/v5 v5.4.0 // indirect
 	github.com/vmihailenco/tagparser/v2 v2.0.0 // indirect
@@ -122,7 +123,6 @@ require (
 	gopkg.in/yaml.v2 v2.4.0 // indirect
 	gopkg.in/yaml.v3 v3.0.1 // indirect
 	gorm.io/driver/postgres v1.5.2 // indirect
-	gorm.io/gorm v1.25.4 // indirect
 	moul.io/zapgorm2 v1.3.0 // indirect
 )
 
